@@ -29,7 +29,7 @@ for kind, want in (('must_fail', 1), ('harmless', 0)):
             if rc != 0:
                 results[kind][name] = {'error': 'does not build: '+out[-300:]}; bad += 1; print(name, 'DOES NOT BUILD'); continue
             outd = '/tmp/selftest-out'; shutil.rmtree(outd, ignore_errors=True); os.makedirs(outd)
-            procs = [(p, subprocess.Popen('/verif/bin/qv check %s -tier quick -repo %s' % (p, wt), shell=True, env=dict(ENV, QV_OUT=outd), stdout=subprocess.PIPE, stderr=subprocess.STDOUT)) for p in props]
+            procs = [(p, subprocess.Popen(os.environ.get('QV_BIN','/verif/bin/qv')+' check %s -tier quick -repo %s' % (p, wt), shell=True, env=dict(ENV, QV_OUT=outd), stdout=subprocess.PIPE, stderr=subprocess.STDOUT)) for p in props]
             r = {}
             for p, pr in procs:
                 o = pr.communicate()[0].decode(errors='replace')
